@@ -22,7 +22,7 @@ def C01(st_units):
              "after every transition every read interface is compared with the reference complex for every simplex "
              "of the universe; distinct_nontrivial = distinct canonical states reached"),
     "bounds": {
-        "quick": "labels {0,1,2}, values {0,1,2}: closure (all finite histories) for 8 option sets; relabelled universe {0,2,5}",
+        "quick": "labels {0,1,2}, values {0,1,2}: closure (all finite histories) for 8 option sets; relabelled universe {0,2,5}; values {0,+inf}",
         "thorough": "labels {0,1,2,3}, values {0,1}: closure or completed depth under the time budget, 8 option sets; merge validation",
     },
     "assumptions": [
@@ -33,10 +33,13 @@ def C01(st_units):
     ],
     "runs": {
         "quick": (
-            [{"unit": "c01_opt%d" % i, "args": ["--labels", "0,1,2", "--F", "0,1,2", "--workers", "2", "--budget", "200"],
+            [{"unit": "c01_opt%d" % i, "args": ["--labels", "0,1,2", "--F", "0,1,2", "--workers", "2", "--budget", "500"],
               "cores": 2} for i in range(8)] +
-            [{"unit": "c01_opt%d" % i, "args": ["--labels", "0,2,5", "--F", "0,1", "--workers", "1", "--budget", "200"],
-              "cores": 1} for i in (0, 1, 4, 5, 6, 7)]
+            [{"unit": "c01_opt%d" % i, "args": ["--labels", "0,2,5", "--F", "0,1", "--workers", "1", "--budget", "500"],
+              "cores": 1} for i in (0, 1, 4, 5, 6, 7)] +
+            # +infinity is a legitimate (non-NaN) filtration value
+            [{"unit": "c01_opt%d" % i, "args": ["--labels", "0,1,2", "--F", "0,inf", "--workers", "1", "--budget", "500"],
+              "cores": 1} for i in (0, 1, 3, 4, 5, 6, 7)]
         ),
         "thorough": (
             [{"unit": "c01_opt%d" % i, "args": ["--labels", "0,1,2,3", "--F", "0,1", "--workers", "2", "--budget", "1500",
